@@ -5,6 +5,7 @@ import (
 	"go/constant"
 	"go/token"
 	"go/types"
+	"math/big"
 	"strings"
 )
 
@@ -464,4 +465,95 @@ func Canon(v Val) (CanonInt, bool) {
 func SymDef(name string) (Affine, bool) {
 	a, ok := symDefs[name]
 	return a, ok
+}
+
+// bitsRange: the unsigned value interval of a bit vector (symbol / unknown bits free).
+func bitsRange(b Bits) (lo, hi *big.Int) {
+	lo, hi = new(big.Int), new(big.Int)
+	for i, bit := range b.B {
+		switch bit.K {
+		case '1':
+			lo.SetBit(lo, i, 1)
+			hi.SetBit(hi, i, 1)
+		case '0':
+		default:
+			hi.SetBit(hi, i, 1)
+		}
+	}
+	return
+}
+
+// bitsCmpConst decides `x op y` when one side is an unsigned bit vector and the other a constant and the vector's
+// value interval lies entirely on one side.
+func bitsCmpConst(op token.Token, x, y Val) (result, ok bool) {
+	bx, isBx := x.(Bits)
+	by, isBy := y.(Bits)
+	cx, isCx := x.(Const)
+	cy, isCy := y.(Const)
+	var b Bits
+	var c Const
+	switch {
+	case isBx && isCy:
+		b, c = bx, cy
+	case isBy && isCx:
+		b, c = by, cx
+		switch op { // mirror
+		case token.LSS:
+			op = token.GTR
+		case token.LEQ:
+			op = token.GEQ
+		case token.GTR:
+			op = token.LSS
+		case token.GEQ:
+			op = token.LEQ
+		}
+	default:
+		return false, false
+	}
+	if b.Signed || c.V == nil || c.V.Kind() != constant.Int {
+		return false, false
+	}
+	k, exact := new(big.Int).SetString(c.V.ExactString(), 10)
+	if !exact {
+		return false, false
+	}
+	lo, hi := bitsRange(b)
+	switch op {
+	case token.LSS:
+		if hi.Cmp(k) < 0 {
+			return true, true
+		}
+		if lo.Cmp(k) >= 0 {
+			return false, true
+		}
+	case token.LEQ:
+		if hi.Cmp(k) <= 0 {
+			return true, true
+		}
+		if lo.Cmp(k) > 0 {
+			return false, true
+		}
+	case token.GTR:
+		if lo.Cmp(k) > 0 {
+			return true, true
+		}
+		if hi.Cmp(k) <= 0 {
+			return false, true
+		}
+	case token.GEQ:
+		if lo.Cmp(k) >= 0 {
+			return true, true
+		}
+		if hi.Cmp(k) < 0 {
+			return false, true
+		}
+	case token.EQL, token.NEQ:
+		if k.Cmp(lo) < 0 || k.Cmp(hi) > 0 {
+			return op == token.NEQ, true
+		}
+		if lo.Cmp(hi) == 0 {
+			return (op == token.EQL) == (lo.Cmp(k) == 0), true
+		}
+	}
+	return false, false
 }
